@@ -46,6 +46,7 @@ THEOREMS = [
     "SleapVerif.C16.perfect_matching_with_empty",
     "SleapVerif.C16.perfect_scores",
     "SleapVerif.C16.perfect_AP",
+    "SleapVerif.C16.pck_pointwise_in_threshold",
     "SleapVerif.C16.mPCK_in_unit",
     "SleapVerif.C16.no_positive_pairs_nan_counterexample",
     "SleapVerif.C16.perfect_needs_distinguishable_counterexample",
@@ -517,6 +518,63 @@ def main(chk: Check, build=True):
         for b in bad:
             chk.fail("metric contract violated: " + b[0], case, observed=b[1])
         return not bad
+
+    def oracle_thresholds(case, res):
+        """caller-supplied threshold lists that are NOT ascending (descending, shuffled, with duplicates): every
+        entry of the result must belong to its own threshold - `pcks[..., k]` = the PCK obtained by calling with the
+        single threshold `thresholds[k]`, the returned `thresholds` are the caller's, and PCK is non-decreasing in
+        the threshold VALUE; likewise the VOC rows for a shuffled list of match thresholds / recall thresholds."""
+        _, e, _ = res
+        if not len(e.positive_pairs):
+            return
+        kind = rng.choice(["descending", "shuffled", "duplicates"])
+        base = [rng.choice([0.5, 1, 2, 3, 4, 5, 7.5, 10, 16]) for _ in range(rng.randrange(2, 7))]
+        if kind == "descending":
+            thr = sorted(set(base), reverse=True)
+        elif kind == "duplicates":
+            thr = base + [base[0]]
+        else:
+            thr = list(dict.fromkeys(base)); rng.shuffle(thr)
+        if thr == sorted(thr) and len(thr) > 1:
+            thr = thr[::-1]
+        chk.tag("pck_thresholds:" + kind)
+        ctx = {"case": case, "thresholds": thr}
+        r = call(e.pck_metrics, thresholds=np.array(thr, dtype=float))
+        if r[0] != "ok":
+            chk.fail("pck_metrics raised for a caller-supplied threshold list", ctx, observed=r); return
+        pm = r[1]
+        if [float(x) for x in np.asarray(pm["thresholds"]).reshape(-1)] != [float(x) for x in thr]:
+            chk.fail("pck_metrics does not return the caller's thresholds", ctx, observed=np.asarray(pm["thresholds"]).tolist())
+        P = np.asarray(pm["pcks"])
+        for k, t in enumerate(thr):
+            single = np.asarray(e.pck_metrics(thresholds=np.array([t], dtype=float))["pcks"])[..., 0]
+            if P.shape[-1] != len(thr) or not np.array_equal(P[..., k], single):
+                chk.fail("pcks[..., k] is not the PCK of thresholds[k] (evaluated alone)", ctx,
+                         observed={"k": k, "threshold": t, "pck_in_list": float(P[..., k].mean()) if P.shape[-1] == len(thr) else None,
+                                   "pck_alone": float(single.mean())})
+                break
+        byval = sorted(zip(thr, P.reshape(-1, P.shape[-1]).mean(axis=0).tolist()))
+        if any(b[1] < a[1] - 1e-12 for a, b in zip(byval, byval[1:])):
+            chk.fail("PCK decreases as the pixel threshold grows", ctx, observed=byval)
+        # VOC: shuffled match thresholds and recall thresholds
+        mt = [0.95, 0.5, 0.75, 0.6, 0.5]; rt = [1.0, 0.0, 0.5, 0.25]
+        v = call(e.voc_metrics, match_score_thresholds=np.array(mt), recall_thresholds=np.array(rt))
+        if v[0] != "ok":
+            chk.fail("voc_metrics raised for caller-supplied threshold lists", {"case": case, "match": mt, "recall": rt}, observed=v)
+            return
+        for k, t in enumerate(mt):
+            one = e.voc_metrics(match_score_thresholds=np.array([t]), recall_thresholds=np.array(rt))
+            if not (np.allclose(v[1]["oks_voc.recalls"][k], one["oks_voc.recalls"][0], atol=1e-12)
+                    and np.allclose(v[1]["oks_voc.precisions"][k], one["oks_voc.precisions"][0], atol=1e-12)):
+                chk.fail("VOC row k does not belong to match_score_thresholds[k]", {"case": case, "match": mt, "recall": rt},
+                         observed={"k": k, "in_list": float(v[1]["oks_voc.recalls"][k]), "alone": float(one["oks_voc.recalls"][0])})
+                break
+        for j, r_ in enumerate(rt):
+            one = e.voc_metrics(match_score_thresholds=np.array(mt), recall_thresholds=np.array([r_]))
+            if not np.allclose(np.asarray(v[1]["oks_voc.precisions"])[:, j], np.asarray(one["oks_voc.precisions"])[:, 0], atol=1e-12):
+                chk.fail("VOC precision column j does not belong to recall_thresholds[j]", {"case": case, "match": mt, "recall": rt},
+                         observed={"j": j})
+                break
 
     def match_map(res, gi_all, pi_all):
         pairs, fns, _ = canon_impl(res, gi_all, pi_all)
@@ -994,6 +1052,7 @@ def main(chk: Check, build=True):
         oracle_bounds(case, res)
         if kind.startswith("perfect"):
             oracle_perfect(case, res, nested=(kind == "perfect_nested"))
+        oracle_thresholds(case, res)
         oracle_deletion(case, res, gi_all, pi_all, n_try=2 if not dis else 6)
 
 if __name__ == "__main__":
